@@ -858,6 +858,9 @@ func (a *Act) mapLen(st *State, m Val) string {
 	dk, ds, _, _, ks, _ := a.mapHeaps(st, mt)
 	dom := sel(a.vc.getHeap(st, dk, ds), m.S)
 	a.vc.assume(st.guard, fmt.Sprintf("(forall ((k %s)) (! (=> (and (not (= %s 0)) (select %s k)) (>= %s 1)) :pattern ((select %s k))))", ks, m.S, dom, sel(L, m.S), dom))
+	// ... and a map of positive length has a key
+	wit := a.vc.fresh("mapwit", ks)
+	a.vc.assume(st.guard, fmt.Sprintf("(=> (and (not (= %s 0)) (>= %s 1)) (select %s %s))", m.S, sel(L, m.S), dom, wit))
 	return r
 }
 
